@@ -569,6 +569,24 @@ static Plan gen_c08(uint64_t seed, int64_t index, bool thorough)
     else if (k < 45) { mode = "one_fault"; add_token_faults(op, rng, 1, *m); }
     else if (k < 80) { mode = "two_or_three_faults"; add_token_faults(op, rng, rng.range(2, 3), *m); }
     else { mode = "four_faults"; add_token_faults(op, rng, 4, *m); }
+    if (rng.chance(1, 25))
+    {
+        // a cstring_buffer literal in which EVERY character is a term (G16: right recursion, no empty rule): each one keeps
+        // a state on the fixed-capacity stacks, and a syntax error at the very end shifts the error symbol on top of all of
+        // them - the last slot of a stack sized N + EmptyRulesCount + 1 (S41)
+        std::vector<std::string> fk = keys_for({ "G16" });
+        if (!fk.empty())
+        {
+            key = rng.pick(fk);
+            op = make_sentence_op(rng, key, sh);
+            op.buffer = BUF_CSTRING; op.heap = false; op.faults.clear(); op.tail.clear(); op.skip_ws = true; op.skip_nl = true;
+            size_t len = size_t(rng.pick(std::vector<int>{ 7, 7, 15, 15, 31, 63 }));
+            op.toks.clear();
+            for (size_t i = 0; i < len; ++i) { PTok t; t.term = rng.chance(1, 3) ? 2 : 0; t.lex = t.term == 2 ? "y" : "x"; t.ws = ""; op.toks.push_back(t); }
+            if (rng.chance(1, 3)) { op.toks.back().term = 1; op.toks.back().lex = ";"; }     // (a complete sentence now and then)
+            mode = "every_character_a_term";
+        }
+    }
     return single_op_plan("C08", seed, index, mode, op);
 }
 
